@@ -21,6 +21,7 @@ MODDIR = os.path.join(common.SPEC, "mesh")
 # ------------------------------------------------------------------------------------------------------------
 ZU = 7.5          # cm per mesh unit (dyadic: every mesh point and height is an exact double, float dust comes only from jitter)
 ZU_ODD = 3.3      # thorough: a second scale whose cumulative sums differ from products in the last bits
+ZU_SLIVER = 1.0 / 32.0  # sliver configurations: H = 2400 units = 75 cm, overlaps of one unit (0.03125 cm) are ~1/1200 of a cell
 NU = 1.0e-3       # atoms/b-cm per density unit
 JIT = 1.0e-9      # cm; jitter of nearly coincident points: above the 1e-10 relative sliver filter, far below the 1e-5 cm check
 RTOL = 1e-9       # a handful of double operations
@@ -80,7 +81,7 @@ class RemeshAdapter:
             e["between"] = {"%d-%d" % (x["lo"], x["hi"]): [[r[0], r[1] * self.zu] for r in x["r"]] for x in q["between"]}
             e["between_jit"] = {"%d-%d-%s" % (x["lo"], x["hi"], sg): [[r[0], r[1] * self.zu] for r in x["r"]]
                                 for x in q["between"] for sg in ("in", "out")}
-            e["at"] = list(q["at"])
+            e["at"] = [[x[0], x[1]] for x in q["at"]]
         return e
 
     # -- build / apply / project ----------------------------------------------------------------------------
@@ -177,9 +178,9 @@ class RemeshAdapter:
                 r = a.getBlocksBetweenElevations(int(lo) * self.zu + d, int(hi) * self.zu - d)
                 out["between_jit"][key] = [[ix[id(b)], float(h)] for b, h in r if h > 1e-6]
             out["at"] = []
-            for e in range(len(exp["at"])):
+            for e, _blk in exp["at"]:
                 b = a.getBlockAtElevation(e * self.zu)
-                out["at"].append(0 if b is None else ix[id(b)])
+                out["at"].append([e, 0 if b is None else ix[id(b)]])
         return out
 
 
@@ -199,7 +200,7 @@ def compare_remesh(exp, got, jit):
             return ".%s: no assembly" % side
         if not g["heights_consistent"]:
             return ".%s.heights: ztop - zbottom differs from getHeight()" % side
-        for key, unit in (("tops", 1.0), ("n", NU), ("atoms", NU * ZU), ("tot", 1.0), ("mass", None)):
+        for key, unit in (("tops", 1.0), ("n", NU), ("atoms", NU * ZU), ("tot", 1.0), ("mass", None)):  # unit: only scales the jitter atol
             atol = 1e-30 if not jit else (RTOL_JIT * unit if unit is not None else RTOL_JIT * max([1e-30] + [abs(x) for x in e["mass"].values()]))
             d = rp.diff(e[key], g[key], ".%s.%s" % (side, key), rtol=rtol, atol=atol)
             if d:
@@ -369,26 +370,24 @@ class CommonMeshAdapter:
 
     def build(self, c, hc):
         ga = self.ga
-        dens = lambda k: [{"FE": 1e-3, "NA": 2e-3} for _ in range(k)]  # noqa: E731
 
-        def heights(tops):
-            t = [0] + list(tops)
-            return [(t[i + 1] - t[i]) * CU for i in range(len(tops))]
+        def asm(a, material, typ, num):
+            t = [0] + list(a["t"])
+            k = len(a["t"])
+            heights = [(t[i + 1] - t[i]) * CU for i in range(k)]
+            kinds = ["grid plate" if i + 1 < a["b"] else (material if i + 1 == a["b"] else "plenum") for i in range(k)]
+            return ga.build_assembly(heights, kinds, [{"FE": 1e-3, "NA": 2e-3} for _ in range(k)], assem_type=typ, assem_num=num)
 
-        a1 = ga.build_assembly(heights(c["f"] + [hc]), ["grid plate", "fuel", "plenum"], dens(3), assem_type="fuel", assem_num=1)
-        if c["c4"]:
-            a2 = ga.build_assembly(heights(c["k"] + [c["c4"], hc]), ["grid plate", "control", "plenum", "plenum"], dens(4),
-                                   assem_type="control", assem_num=2)
-        else:
-            a2 = ga.build_assembly(heights(c["k"] + [hc]), ["grid plate", "control", "plenum"], dens(3), assem_type="control", assem_num=2)
-        a3 = ga.build_assembly(heights(c["g"] + [hc]), ["grid plate", "fuel", "plenum", "plenum"], dens(4), assem_type="fuel", assem_num=3)
-        return ga.build_core([a1, a2, a3])
+        assems = [asm(c["a1"], "fuel", "fuel", 1), asm(c["a2"], "control", "control", 2)]
+        if c["a3"]["t"]:
+            assems.append(asm(c["a3"], "fuel", "fuel", 3))
+        return ga.build_core(assems)
 
     def run_case(self, p, hc):
         from armi.reactor.converters.uniformMesh import UniformMeshGenerator
 
         c = p["c"]
-        key = json.dumps([c["f"], c["k"], c["c4"], c["g"], hc])
+        key = json.dumps([c["a1"], c["a2"], c["a3"], hc])
         if getattr(self, "_last", (None, None))[0] != key:  # cases that differ only in the minimum size share the core (it is only read)
             self._last = (key, self.build(c, hc))
         r = self._last[1]
@@ -428,19 +427,21 @@ TIERS = {
     "quick": {
         "remesh_mc": [("AxialRemesh_mc.cfg", ("DoMakeUniform", "DoSolve", "MapBack")),
                       ("AxialRemesh_snap.cfg", ("DoSnap", "DoSnapRefused", "DoMakeUniform"))],
-        "remesh_emit": [("AxialRemesh_emit.cfg", ZU, "exact"), ("AxialRemesh_emit_jit.cfg", ZU, "jitter")],
+        "remesh_emit": [("AxialRemesh_emit.cfg", ZU, "exact"), ("AxialRemesh_emit_jit.cfg", ZU, "jitter"),
+                        ("AxialRemesh_sliver.cfg", ZU_SLIVER, "sliver"), ("AxialRemesh_sliver2.cfg", ZU_SLIVER, "sliver2")],
         "resample": "Resample_mc.cfg",
         "filter": "FilterMesh_mc.cfg",
-        "common": ("CommonMesh_mc.cfg", 5),
+        "common": [("CommonMesh_mc.cfg", 5, "avg"), ("CommonMesh_planes.cfg", 7, "planes")],
     },
     "thorough": {
         "remesh_mc": [("AxialRemesh_mc_thorough.cfg", ("DoMakeUniform", "DoSolve", "MapBack")),
                       ("AxialRemesh_snap_thorough.cfg", ("DoSnap", "DoSnapRefused", "DoMakeUniform"))],
         "remesh_emit": [("AxialRemesh_emit_thorough.cfg", ZU, "exact"), ("AxialRemesh_emit_jit_thorough.cfg", ZU, "jitter"),
-                        ("AxialRemesh_emit.cfg", ZU_ODD, "odd-scale")],
+                        ("AxialRemesh_emit.cfg", ZU_ODD, "odd-scale"),
+                        ("AxialRemesh_sliver.cfg", ZU_SLIVER, "sliver"), ("AxialRemesh_sliver2.cfg", ZU_SLIVER, "sliver2")],
         "resample": "Resample_thorough.cfg",
         "filter": "FilterMesh_thorough.cfg",
-        "common": ("CommonMesh_thorough.cfg", 6),
+        "common": [("CommonMesh_thorough.cfg", 6, "avg"), ("CommonMesh_planes_thorough.cfg", 8, "planes")],
     },
 }
 PARTS = ("remesh", "resample", "filter", "common")
@@ -486,7 +487,8 @@ def run(rep, tier, seed):
         if "filter" in parts:
             jobs[T["filter"]] = pool.submit(_tlc, "FilterMesh", T["filter"], 1, True)
         if "common" in parts:
-            jobs[T["common"][0]] = pool.submit(_tlc, "CommonMesh", T["common"][0], 1, True)
+            for cfg, _hc, _fam in T["common"]:
+                jobs[cfg] = pool.submit(_tlc, "CommonMesh", cfg, 1, True)
         if "remesh" in parts and not _ST["on"]:
             for cfg, _acts in T["remesh_mc"]:
                 jobs[cfg] = pool.submit(_tlc, "AxialRemesh_mc", cfg, 8, False)
@@ -514,7 +516,8 @@ def run(rep, tier, seed):
         if "filter" in parts:
             timed("filter", _check_filter, rep, result(T["filter"]), random.Random(seed))
         if "common" in parts:
-            timed("common", _check_common, rep, result(T["common"][0]), T["common"][1])
+            for cfg, hc, fam in T["common"]:
+                timed("common:" + fam, _check_common, rep, result(cfg), hc, fam)
         if "remesh" in parts:
             for cfg, zu, label in T["remesh_emit"]:
                 timed("replay:" + label, _replay_remesh, rep, result(cfg), zu, label, cfg)
@@ -535,7 +538,9 @@ def run(rep, tier, seed):
         "rtol 1e-7 (+1e-7 value units); peaks and None-ness are discontinuous in a 1e-9 cm sliver and are not compared there",
         "resampleStepwise: output points inside the input range; _filterMesh: anchors are candidates; dyadic cm scales so that "
         "gap-versus-minimum comparisons are exact as in the integer model",
-        "generateCommonMesh: cores of three assemblies (fuel reference, control with 3 or 4 blocks, fuel with 4 blocks)",
+        "generateCommonMesh: cores of three assemblies (fuel reference, control with 3 or 4 blocks, fuel with 4 blocks; two meshes averaged) "
+        "and cores of two assemblies where the fuel reference has regular non-material planes below / above the fuel and the control "
+        "bottom and top take every position around them",
     )
     rep.extra["tolerances"] = {"rtol": RTOL, "rtol_jitter": RTOL_JIT, "jitter_cm": JIT, "cm_per_unit": ZU, "cm_per_unit_odd": ZU_ODD}
 
@@ -550,7 +555,7 @@ def _replay_remesh(rep, r, zu, label, cfg):
     ndiv = 0
     kinds = {}
     for i, st in enumerate(states):
-        if _ST["stride"] > 1 and i % _ST["stride"]:
+        if _ST["stride"] > 1 and len(states) > 500 and i % _ST["stride"]:
             continue
         d = run_remesh_state(ad, st, by_key)
         n += 1
@@ -622,14 +627,20 @@ def _check_filter(rep, r, rng):
     rep.sample({"kind": "filter-case", "case": cases[len(cases) // 2]})
 
 
-def _check_common(rep, r, hc):
+def _check_common(rep, r, hc, fam):
     cases = [p for p in r.prints if isinstance(p, dict) and "c" in p]
     outcomes = {p["outcome"] for p in cases}
-    if outcomes != {"avg", "anchors", "mesh"}:
+    if outcomes != ({"avg", "anchors", "mesh"} if fam == "avg" else {"anchors", "mesh"}):
         raise tlc.MachineryError("common-mesh cases vacuous: outcomes %s" % outcomes)
+    if fam == "planes":
+        # the scenario the family exists for: a control boundary strictly inside the minimum-size window of a regular plane
+        near = {side: sum(1 for p in cases if p["outcome"] == "mesh" and p["near"][side]) for side in ("above", "below")}
+        rep.extra["common_mesh_control_boundary_near_plane"] = near
+        if not near["above"] or not near["below"]:
+            raise tlc.MachineryError("common-mesh plane cases vacuous: %s" % near)
     ad = CommonMeshAdapter()
     n = nt = 0
-    cases = sorted(cases, key=lambda p: json.dumps([p["c"]["f"], p["c"]["k"], p["c"]["c4"], p["c"]["g"], p["c"]["min"]]))
+    cases = sorted(cases, key=lambda p: json.dumps([p["c"]["a1"], p["c"]["a2"], p["c"]["a3"], p["c"]["min"]]))
     for p in cases:
         if _ST["stride"] > 1 and n % 3:
             n += 1
@@ -638,9 +649,9 @@ def _check_common(rep, r, hc):
         nt += 1 if p["outcome"] != "mesh" or p["mesh"] != p["common"] else 0
         f = ad.run_case(p, hc)
         if f:
-            rep.violation("commonmesh:%s" % f[0], "generateCommonMesh differs from CommonMesh for %s: %s" % (json.dumps(p["c"]), f[1]),
+            rep.violation("commonmesh:%s:%s" % (fam, f[0]), "generateCommonMesh differs from CommonMesh for %s: %s" % (json.dumps(p["c"]), f[1]),
                           {"direction": "replay", "kind": "common", "case": p, "hc": hc})
-    rep.add_replay("common-mesh-cases", n, nt, "every enumerated three-assembly core is built (real Reactor/Core/HexAssembly) and "
+    rep.add_replay("common-mesh-cases:" + fam, n, nt, "every enumerated three-assembly core is built (real Reactor/Core/HexAssembly) and "
                    "UniformMeshGenerator run on it; compared: outcome (mesh / ValueError from averaging / ValueError from anchors), the "
                    "average mesh and the final mesh; non-trivial = decusping changes the average mesh or the call must raise")
     rep.sample({"kind": "common-mesh-case", "case": cases[len(cases) // 2]})
@@ -740,6 +751,11 @@ def selftest():
         ("remesh", "setAssemblyStateFromOverlaps: peak takes the smallest overlapped value",
          lambda: M(C, "setAssemblyStateFromOverlaps", "updatedDestVals[paramName] = max(\n                                sourceBlockVal, updatedDestVals[paramName]\n                            )",
                    "updatedDestVals[paramName] = min(sourceBlockVal, updatedDestVals.get(paramName, sourceBlockVal))")),
+        ("remesh", "seed C11-5: peak ignores overlaps thinner than 0.1% of the destination cell",
+         lambda: M(C, "setAssemblyStateFromOverlaps", "                        if paramMapper.isPeak[paramName]:\n",
+                   "                        if paramMapper.isPeak[paramName]:\n"
+                   "                            if sourceBlockOverlapHeight < 1e-3 * destinationBlockHeight:\n"
+                   "                                continue\n")),
         ("remesh", "setAssemblyStateFromOverlaps: None counted as 0.0", lambda: M(C, "setAssemblyStateFromOverlaps", "if sourceBlockVal is None:\n                            continue", "if sourceBlockVal is None:\n                            sourceBlockVal = 0.0")),
         ("remesh", "setNumberDensitiesFromOverlaps: weight = overlap / source block height",
          lambda: M(um, "setNumberDensitiesFromOverlaps", "overlappingHeightInCm / blockHeightInCm", "overlappingHeightInCm / overlappingBlock.getHeight()")),
@@ -750,9 +766,16 @@ def selftest():
         ("remesh", "setBlockMesh auto: belowFuelColumn never cleared", lambda: M(A, "setBlockMesh", "belowFuelColumn = False", "pass")),
         ("remesh", "setBlockMesh: bottom of the next block not advanced", lambda: M(A, "setBlockMesh", "            zBottom = newTop", "            pass")),
         ("remesh", "getBlockAtElevation: block bottom belongs to the block", lambda: M(A, "getBlockAtElevation", "and bottomOfBlock < elevation", "and bottomOfBlock <= elevation")),
-        ("resample", "resampleStepwise avg: right partial bin not trimmed", lambda: M(mathematics, "resampleStepwise", "length[-1] *= fraction", "pass")),
-        ("resample", "resampleStepwise avg: plain mean of the overlapped values", lambda: M(mathematics, "resampleStepwise", "yout.append(weighted_sum / sum(length))", "yout.append(sum(chunk) / len(chunk))")),
-        ("resample", "resampleStepwise: zero-width overlap kept on the right", lambda: M(mathematics, "resampleStepwise", "chunk = chunk[:-1]\n                length = length[:-1]", "pass")),
+        ("resample", "resampleStepwise: right partial bin not trimmed", lambda: M(mathematics, "resampleStepwise", "inside[-1] -= 1.0 - fraction", "pass")),
+        ("resample", "resampleStepwise avg: plain mean of the overlapped values", lambda: M(mathematics, "resampleStepwise", "yout.append(weighted_sum / sum(weights))", "yout.append(sum(chunk) / len(chunk))")),
+        ("resample", "resampleStepwise: zero-width overlap kept on the right", lambda: M(mathematics, "resampleStepwise", "chunk = chunk[:-1]\n                length = length[:-1]\n                inside = inside[:-1]", "pass")),
+        ("resample", "resampleStepwise (defect fixed in /repo): doubly partial bin multiplies both fractions",
+         lambda: M(mathematics, "resampleStepwise", "inside[0] -= 1.0 - fraction", "inside[0] *= fraction")),
+        ("resample", "resampleStepwise (defect fixed in /repo): sum mode scales the caller's values in place",
+         lambda: M(mathematics, "resampleStepwise", "yout.append(sum([ch * f for ch, f in zip(chunk, inside)]))",
+                   "[chunk.__setitem__(j, chunk[j].__imul__(f) if hasattr(chunk[j], '__len__') else chunk[j] * f) for j, f in enumerate(inside)]\n            yout.append(sum(chunk))")),
+        ("resample", "resampleStepwise (defect fixed in /repo): None multiplied before the None test",
+         lambda: M(mathematics, "resampleStepwise", "        # return the sum or the average\n", "        _ = [ch * f for ch, f in zip(chunk, inside)]\n")),
         ("filter", "_filterMesh: cells of exactly the minimum size removed", lambda: M(G, "_filterMesh", "if difference < minimumMeshSize:", "if difference <= minimumMeshSize:")),
         ("filter", "_filterMesh: anchors not protected", lambda: M(G, "_filterMesh", "if meshList[i + 1] in anchorPoints:\n                        removeIndex = i\n                    else:\n                        removeIndex = i + 1", "removeIndex = i + 1")),
         ("filter", "_filterMesh: anchor test on the wrong neighbour", lambda: M(G, "_filterMesh", "if meshList[i + 1] in anchorPoints:\n                        removeIndex = i", "if meshList[i] in anchorPoints:\n                        removeIndex = i")),
@@ -760,6 +783,10 @@ def selftest():
         ("filter", "_filterMesh: two close anchors tolerated silently", lambda: M(G, "_filterMesh", "raise ValueError(errorMsg)", "return sorted(meshList)")),
         ("common", "average1DWithinTolerance: rows exactly at the tolerance dropped",
          lambda: M(mathematics, "average1DWithinTolerance", "(diff > tolerance)", "(diff >= tolerance)", also=(um,))),
+        ("common", "seed C11-1: _decuspAxialMesh bottoms pass anchors only the fuel bottoms",
+         lambda: M(G, "_decuspAxialMesh", "            self.minimumMeshSize,\n            materialBottoms,\n", "            self.minimumMeshSize,\n            filteredBottomFuel,\n")),
+        ("common", "_decuspAxialMesh: tops pass anchors only the fuel tops",
+         lambda: M(G, "_decuspAxialMesh", "            self.minimumMeshSize,\n            materialTops,\n", "            self.minimumMeshSize,\n            filteredTopFuel,\n")),
         ("common", "_decuspAxialMesh: final filter without anchors", lambda: M(G, "_decuspAxialMesh", "materialAnchors,\n            preference=\"top\",", "[],\n            preference=\"top\",")),
         ("common", "_getFilteredMeshTopAndBottom: lowest top anchored instead of the highest", lambda: M(G, "_getFilteredMeshTopAndBottom", "(tops, \"top\", lastBlockTop, max)", "(tops, \"top\", lastBlockTop, min)")),
         ("common", "_computeAverageAxialMesh: first mesh point not skipped for the reference", lambda: M(G, "_computeAverageAxialMesh", "aMesh = src.core.findAllAxialMeshPoints([a])[1:]", "aMesh = src.core.findAllAxialMeshPoints([a])[:-1]")),
